@@ -444,6 +444,9 @@ func (c *SCIONClient) measureClockOffsetSCION(ctx context.Context, mtrcs *scionC
 			compareIPs(scionLayer.RawSrcAddr, remoteAddr.Host.IP) == 0
 		validDst := scionLayer.DstIA == localAddr.IA &&
 			compareIPs(scionLayer.RawDstAddr, localAddr.Host.IP) == 0
+		// the bytes of a service address are not an IP host address
+		validSrc = validSrc && (scionLayer.SrcAddrType == slayers.T4Ip || scionLayer.SrcAddrType == slayers.T16Ip)
+		validDst = validDst && (scionLayer.DstAddrType == slayers.T4Ip || scionLayer.DstAddrType == slayers.T16Ip)
 		if !validSrc || !validDst {
 			err = errUnexpectedPacket
 			if numRetries != maxNumRetries && deadlineIsSet && timebase.Now().Before(deadline) {
